@@ -191,11 +191,7 @@ func (x *Exec) kindOfVal(v *Term) *Term {
 		}
 	}
 	x.kindUsed = true
-	k := tt.App("kindOf", "Int", v)
-	if x.bv {
-		return tt.App("(_ int2bv 64)", bvSort(64), k)
-	}
-	return k
+	return tt.App("kindOf", x.intSort(64), v)
 }
 
 func (x *Exec) kindOfTidTerm(tid *Term) *Term {
@@ -210,11 +206,7 @@ func (x *Exec) kindOfTidTerm(tid *Term) *Term {
 		}
 	}
 	x.kindUsed = true
-	k := tt.App("kindOfTid", "Int", tid)
-	if x.bv {
-		return tt.App("(_ int2bv 64)", bvSort(64), k)
-	}
-	return k
+	return tt.App("kindOfTid", x.intSort(64), tid)
 }
 
 func (x *Exec) reflLen(v *Term) *Term {
